@@ -33,6 +33,8 @@ FS_OPS = [
     ("str", None, None),
     ("from_parser_result", None, None),
     ("add-body-regex", [("body", ":raw", ":regex", "x+")], [("discard",)]),
+    ("add-fileinto-Copy-mixedcase", [("Subject", ":contains", "x")], [("fileinto", ":Copy", ":CREATE", "B")]),
+    ("add-header-Regex-mixedcase", [("Subject", ":Regex", "a.*")], [("keep", ":Flags", "\\Seen")]),
 ]
 
 
